@@ -1,6 +1,7 @@
 package main
 
 import (
+	"go/token"
 	"fmt"
 	"go/ast"
 	"go/constant"
@@ -229,6 +230,51 @@ func propC11(c *Ctx) {
 				b, ok := cl.Call.Value.(*ssa.Builtin)
 				return ok && b.Name() == "len"
 			}, 4)
+			// the key is the offset OF THE OPCODE BYTE in the new stream: the length
+			// of the stream right after the single opcode byte was appended, minus
+			// one - or the length right before that append
+			keyAtOpcode := false
+			var opAppend *ssa.Call
+			eachInstr(convSSA, func(ins ssa.Instruction) {
+				cl, ok := ins.(*ssa.Call)
+				if !ok || len(cl.Call.Args) != 2 {
+					return
+				}
+				if b, ok := cl.Call.Value.(*ssa.Builtin); !ok || b.Name() != "append" {
+					return
+				}
+				if sl, ok := cl.Call.Args[1].(*ssa.Slice); ok {
+					if al, ok := sl.X.(*ssa.Alloc); ok {
+						if p, ok := al.Type().Underlying().(*types.Pointer); ok {
+							if arr, ok := p.Elem().Underlying().(*types.Array); ok && arr.Len() == 1 && opAppend == nil {
+								opAppend = cl
+							}
+						}
+					}
+				}
+			})
+			lenArg := func(v ssa.Value) ssa.Value {
+				if cl, ok := v.(*ssa.Call); ok {
+					if b, ok := cl.Call.Value.(*ssa.Builtin); ok && b.Name() == "len" && len(cl.Call.Args) == 1 {
+						return cl.Call.Args[0]
+					}
+				}
+				return nil
+			}
+			if opAppend != nil {
+				if bo, ok := upd.Key.(*ssa.BinOp); ok && bo.Op == token.SUB {
+					if k, ok := constInt64(bo.Y); ok && k == 1 && lenArg(bo.X) == ssa.Value(opAppend) {
+						keyAtOpcode = true
+					}
+				}
+				if a := lenArg(upd.Key); a != nil && a == opAppend.Call.Args[0] {
+					keyAtOpcode = true
+				}
+			} else {
+				keyAtOpcode = true // no single-byte append found: the shape is not the one this clause models
+			}
+			c.Check(rs, fnName(convSSA)+" | key is the opcode's offset", l.Pos(upd.Pos()), keyAtOpcode, "the length of the new stream right after the opcode byte was appended, minus one",
+				"the source-map key is not the offset of the instruction's opcode byte in the new stream (it is taken before the opcode is appended, or after more bytes were): every position entry is keyed one byte off, and one-byte instructions report the position of their neighbour")
 			// the map written is not the map read: offsets only move up while the
 			// stream is visited in increasing order, so an entry moved within one
 			// map overwrites the not-yet-read entry of a later instruction
